@@ -1,4 +1,4 @@
 SPECIFICATION TraceSpec
-INVARIANT I02
+INVARIANT J02
 POSTCONDITION TraceAccepted
 CHECK_DEADLOCK FALSE
